@@ -10,7 +10,7 @@ from .decodestate import DecodeState
 from .diagcodedtype import DiagCodedType
 from .dopbase import DopBase
 from .encodestate import EncodeState
-from .exceptions import EncodeError, odxraise, odxrequire
+from .exceptions import DecodeError, EncodeError, odxraise, odxrequire
 from .internalconstr import InternalConstr
 from .odxlink import OdxDocFragment, OdxLinkDatabase, OdxLinkId, OdxLinkRef
 from .odxtypes import AtomicOdxType, BytesTypes, ParameterValue
@@ -143,8 +143,9 @@ class DataObjectProperty(DopBase):
         if default_value and default_value.value is not None:
             return default_value.value
 
-        odxraise(f"DOP {self.short_name} could not convert the coded value "
-                 f"{repr(internal)} to physical type {self.physical_type.base_data_type}.")
+        odxraise(
+            f"DOP {self.short_name} could not convert the coded value "
+            f"{repr(internal)} to physical type {self.physical_type.base_data_type}.", DecodeError)
 
         return None
 
